@@ -44,7 +44,12 @@ def run_pass(dataset, fmt: str, iface: str, split: str, work: Path, *, shuffle: 
     kwargs = dict(extra or {})
     if par is not None and "file_parallelism" in readers.ACCEPTS[iface]:
         kwargs["file_parallelism"] = par
-    process_record = readers.double_plus_one if process else None
+    if process == "none-some":
+        # "parse or return None, filter later": a legitimate transformation whose result is sometimes None
+        def process_record(example):
+            return None if int(example["id"]) % 3 == 0 else example
+    else:
+        process_record = readers.double_plus_one if process else None
     observation: dict = {}
     if "gate" in perturb and gateable(fmt, iface) and not repeat:
         paths = shard_paths(dataset, split)
@@ -61,9 +66,14 @@ def run_pass(dataset, fmt: str, iface: str, split: str, work: Path, *, shuffle: 
         observation = {"gated": 0, "delay_injections": stats["sleeps"]}
     raw_ids = []
     problems = []
+    nones = sum(1 for ex in examples if ex is None)
+    examples = [ex for ex in examples if ex is not None]
+    observation["none_results"] = nones
     for ex in examples:
         raw_ids.append(int(ex["id"]))
-    if process:
+    if process == "none-some":
+        ids = raw_ids
+    elif process:
         bad = [i for i in raw_ids if i % 2 == 0]
         ids = [(i - 1) // 2 for i in raw_ids]
         if bad:
